@@ -68,7 +68,14 @@ def handleCase (f : List String) : Except String Verdict := do
     let some rip := (pg "rip").bind fromHex | throw "outside-domain: peerinfo"
     let some ripStr := (pg "str").bind fromHex | throw "outside-domain: peerinfo"
     if rip.length != 4 && rip.length != 16 then throw "outside-domain: peer address length"
+    -- the peer field: the judged peer, then the peers of the earlier requests of the history
+    let (peer, earlier) := match peer.splitOn "/" with
+      | p :: rest => (p, rest)
+      | [] => (peer, [])
     if peer != "u" && !(peer.startsWith "t:") then throw "outside-domain: peer"
+    if earlier.length > 3 then throw "outside-domain: history too long"
+    let some earlierPeers := earlier.mapM fromHex | throw "outside-domain: history peer"
+    if earlierPeers.any (fun p => p.length != 4 && p.length != 16) then throw "outside-domain: history peer length"
     let some parsed := (if pinfo == "-" then some [] else (pinfo.splitOn "|").mapM parseProxy) | throw "outside-domain: pinfo"
     if parsed.length != proxiesRaw.length then throw "outside-domain: pinfo length"
     -- `handleTrustedProxy` (range or address, canonical key) is the model's
@@ -135,7 +142,14 @@ def handleCase (f : List String) : Except String Verdict := do
         (if xfh.contains 58 then ["xfh-colon"] else []) ++ (if xfh.contains 91 then ["xfh-v6-literal"] else []) ++
         (if xfh.contains 44 then ["xfh-list"] else []) ++ (if uhA.contains 91 then ["host-v6-literal"] else [])
       else []
-    let tags := [how, fam] ++ nt ++ schTags ++ (if cn.tls then ["tls"] else []) ++ (if cfg.validate then ["validate"] else []) ++
+    -- histories: an earlier peer sharing the judged peer's leading / trailing four bytes or address
+    let histTags := if earlierPeers.isEmpty then [] else
+      ["history"] ++
+      (if earlierPeers.any (fun p => p != rip && p.take 4 == rip.take 4) then ["hist-same-lead4"] else []) ++
+      (if earlierPeers.any (fun p => p != rip && p.reverse.take 4 == rip.reverse.take 4) then ["hist-same-tail4"] else []) ++
+      (if earlierPeers.any (fun p => p != rip && to16 p == to16 rip) then ["hist-same-address"] else []) ++
+      (if earlierPeers.any (fun p => isProxyTrusted cfg { cn with rip := p, ripStr := ipString p } != ma.trusted) then ["hist-trust-alternates"] else [])
+    let tags := [how, fam] ++ nt ++ schTags ++ histTags ++ (if cn.tls then ["tls"] else []) ++ (if cfg.validate then ["validate"] else []) ++
       (if phdr != [] then ["proxyheader"] else []) ++ (if ma.ip != ripStr then ["ip-forwarded"] else []) ++
       (if ma.scheme == sHTTPS && !cn.tls then ["https-forwarded"] else []) ++ (if longGroup then ["long-group"] else [])
     return { id := id, modelObs := modelObs, implObs := impl, spec := spec, known := known, tags := tags }
